@@ -37,6 +37,9 @@ def line_text(src, off):
 
 # ---------------------------------------------------------------- C18: renamings
 
+KEYWORD_WORDS = ["int", "char", "long", "short", "do", "if", "else", "for", "while", "void", "const", "static", "inline",
+                 "default", "case", "goto", "enum", "union", "struct", "float", "double", "return", "break", "signed"]
+
 def name_class_rename(name, rng):
     """a name of the same length and naming class: prefix kept, each character replaced by one
     of its own class (lower / upper / digit), underscores kept"""
@@ -48,13 +51,21 @@ def name_class_rename(name, rng):
     rest = name[len(prefix):]
     out = []
     lower_snake = rest == rest.lower()
+    # a keyword followed by underscores is an ordinary identifier of the lower-case snake class
+    if lower_snake and not prefix and rest[:1].isalpha() and rng.random() < 0.12:
+        kws = [k for k in KEYWORD_WORDS if 1 <= len(rest) - len(k) <= 2]
+        if kws:
+            k = rng.choice(kws)
+            return k + "_" * (len(rest) - len(k))
     for i, ch in enumerate(rest):
         if ch == "_" and lower_snake and rng.random() < 0.3 and not (i == 1 and rest[0] in "gstue"):
             out.append(rng.choice("abcdefghijklmnopqrstuvwxyz"))      # still lower-case snake case
         elif ch.islower():
-            out.append(rng.choice("abcdefghijklmnopqrstuvwxyz"))
+            out.append(rng.choice("abcdefghijklmnopqrstuvwxyz" if i == 0 or rng.random() > 0.1 else "0123456789"))
         elif ch.isupper():
-            out.append(rng.choice("ABCDEFGHIJKLMNOPQRSTUVWXYZ"))
+            # all-upper names (macros) may carry digits after the first character
+            alldig = rest == rest.upper() and i > 0 and rng.random() < 0.15
+            out.append(rng.choice("0123456789" if alldig else "ABCDEFGHIJKLMNOPQRSTUVWXYZ"))
         elif ch.isdigit():
             out.append(rng.choice("0123456789"))
         else:
@@ -113,7 +124,8 @@ def renaming(src, name, rng, keywords):
 
 # ---------------------------------------------------------------- C17: same-width replacement
 
-CODE = "abcxyzABZ019 ;,(){}[]+-*/=<>!&|?:#_."
+CODE = "abcxyzABZ019 ;,(){}[]+-*/=<>!&|?:#_.%"
+ALT_SPELLINGS = ["<:", ":>", "<%", "%>", "%:", "??<", "??>", "??(", "??)", "??=", "??!", "??-", "%:%:"]
 
 
 def swap_one(src, rng, header_lines=0):
@@ -164,6 +176,15 @@ def swap_one(src, rng, header_lines=0):
         if rng.random() < 0.2 and len(new) >= 3:
             pre = rng.choice(["/", "*", "#", "{", "??", "<", ":"])
             new = pre + new[len(pre):]
+        # alternative spellings inside the text: digraphs and trigraphs (not `??/`, which is a backslash)
+        if rng.random() < 0.4 and len(new) >= 4:
+            for _ in range(rng.randint(1, 3)):
+                sp = rng.choice(ALT_SPELLINGS)
+                if len(sp) < len(new):
+                    k = rng.randrange(len(new) - len(sp) + 1)
+                    new = new[:k] + sp + new[k + len(sp):]
+        if "??/" in new or "\\" in new or (what == "string" and '"' in new) or (what == "char" and "'" in new):
+            continue
         if what == "block" and ("*/" in new or new.endswith("*") and False or "/*" in new and False):
             continue
         if what == "block" and (new.endswith("*") or new.startswith("/") and False):
